@@ -157,6 +157,28 @@ def sym_lfilter(b, a, x, axis=-1, **kw):
     return y.view(alg.SymArr)
 
 
+def sym_upfirdn(h, x, up=1, down=1, axis=-1, **kw):
+    """assumed contract of scipy.signal.upfirdn: zero-stuff by `up`, full FIR convolution with h, keep every `down`-th sample (along `axis`)"""
+    hh = [alg.expr_of(v) for v in np.asarray(h).reshape(-1)]
+    x = np.moveaxis(np.asarray(x, dtype=object), axis, -1)
+    n = x.shape[-1]
+    nup = (n - 1) * up + 1
+    nfull = nup + len(hh) - 1
+    nout = -(-nfull // down)
+    y = np.empty(x.shape[:-1] + (nout,), dtype=object)
+    for idx in np.ndindex(*x.shape[:-1]):
+        row = x[idx]
+        for k in range(nout):
+            m = k * down
+            acc = sp.Integer(0)
+            for j in range(len(hh)):
+                i_up = m - j
+                if hh[j] != 0 and 0 <= i_up < nup and i_up % up == 0:
+                    acc += hh[j] * alg.expr_of(row[i_up // up])
+            y[idx + (k,)] = alg.S(acc)
+    return np.moveaxis(y, -1, axis).view(alg.SymArr)
+
+
 def _resample_case(args, t0):
     shape, axis, p, q, pts = args
     dspm = alg.load_module(report.REPO, DSP)
@@ -167,7 +189,7 @@ def _resample_case(args, t0):
         data[i] = alg.S(syms[i])
     data = data.reshape(shape).view(alg.SymArr)
     reg = alg.HashRegime("resample")
-    sig = types.SimpleNamespace(lfilter=sym_lfilter, windows=__import__("scipy.signal", fromlist=["windows"]).windows)
+    sig = types.SimpleNamespace(lfilter=sym_lfilter, upfirdn=sym_upfirdn, windows=__import__("scipy.signal", fromlist=["windows"]).windows)
     with alg.Shimmed(dspm, reg, {"np": npx.NPX(), "signal": sig}):
         out, fir = dspm.resample(data, p, q, axis=axis, pts=pts, getfir=True)
         const = dspm.resample(np.full(shape, alg.S(sp.Symbol("c", real=True)), dtype=object).view(alg.SymArr), p, q, axis=axis, pts=pts)
@@ -205,19 +227,21 @@ def _resample_case(args, t0):
                 bad.append(list(idx) + [k])
     res.append(dict(name=tag + "::every lane along the data axis equals the 1-D resampling of that lane (data axis restored to its place)", status="failed" if bad else "proved",
                     seconds=time.time() - t0, detail={"bad": bad[:5], "lanes": len(lanes)}))
-    if q == 1 or math.gcd(p, q) == q:
-        pp = p // math.gcd(p, q)
-        # original samples kept: output sample k*pp depends on x_k with coefficient 1 and on no other sample (to 1e-14: the taps are doubles)
+    if p // math.gcd(p, q) > q // math.gcd(p, q):
+        pp, qq = p // math.gcd(p, q), q // math.gcd(p, q)
+        # original samples kept when the rate goes up: output sample m*pp sits at the time of input sample m*qq and depends on it with coefficient 1 and on no other
+        # sample (to 1e-13: the taps are doubles)
         bad = []
         for idx, lane in lanes.items():
             lane_syms = [alg.expr_of(v) for v in np.moveaxis(np.asarray(data), axis, -1)[idx]]
-            mean = sum(lane_syms) / len(lane_syms)
-            for k in range(ln):
-                e = sp.expand(alg.expr_of(lane[k * pp]))
+            for m_ in range(0, (ln - 1) // qq + 1):
+                if m_ * pp >= nout:
+                    break
+                e = sp.expand(alg.expr_of(lane[m_ * pp]))
                 for j, sj in enumerate(lane_syms):
                     cfe = float(e.coeff(sj))
-                    if abs(cfe - (1.0 if j == k else 0.0)) > 1e-13:
-                        bad.append((list(idx), k, j, cfe))
+                    if abs(cfe - (1.0 if j == m_ * qq else 0.0)) > 1e-13:
+                        bad.append((list(idx), m_ * pp, j, cfe))
         res.append(dict(name=tag + "::upsampling keeps the original samples (output[k p] == x[k] to 1e-13 in every coefficient)", status="failed" if bad else "proved",
                         seconds=time.time() - t0, detail={"bad": bad[:4]}))
     return res
@@ -452,14 +476,19 @@ def float_checks(seed, quick):
     # 4. Lanczos resampling of a band-limited signal
     tt = np.arange(400) / 400.0
     sig = np.sin(2 * np.pi * 7 * tt) + 0.5 * np.cos(2 * np.pi * 19 * tt + 0.3)
-    for p, q in ((3, 1), (1, 2), (3, 7), (10, 4)):
-        r, tn = dsp.resample(sig, p, q, t=tt)
+    for p, q, pts_ in ((3, 1, 10), (1, 2, 10), (3, 7, 10), (10, 4, 10), (4, 3, 10), (5, 3, 10), (7, 4, 10), (5, 4, 10), (3, 2, 7), (5, 2, 9), (3, 2, 10)):
+        r, tn = dsp.resample(sig, p, q, t=tt, pts=pts_)
         ev += 1
+        if p > q:
+            pp_, qq_ = p // math.gcd(p, q), q // math.gcd(p, q)
+            kept = abs(r[::pp_][: len(sig[::qq_])] - sig[::qq_][: len(r[::pp_])]).max()
+            if kept > 1e-9:
+                return ev, dict(what="dsp.resample to a higher rate does not keep the original samples (output[m p'] != x[m q'])", p=p, q=q, pts=pts_, max_difference=float(kept))
         ref = np.sin(2 * np.pi * 7 * tn) + 0.5 * np.cos(2 * np.pi * 19 * tn + 0.3)
         core = slice(len(tn) // 5, -len(tn) // 5)
         if len(r) != int(np.ceil(400 * p / q)) or len(r) != len(tn):
             return ev, dict(what="dsp.resample does not return ceil(n p / q) samples (or positions and data differ in length)", p=p, q=q, n_out=int(len(r)), n_positions=int(len(tn)))
-        if abs(r[core] - ref[core]).max() > 2e-3:
+        if abs(r[core] - ref[core]).max() > (2e-3 if pts_ >= 10 else 2e-2):
             return ev, dict(what="Lanczos resampling of a band-limited signal is inaccurate in the interior", p=p, q=q, err=float(abs(r[core] - ref[core]).max()))
     return ev, None
 
@@ -482,7 +511,7 @@ def run(tier, seed):
                 run.add_function(rel, nd.name, hashlib.sha256(ast.unparse(nd).encode()).hexdigest()[:16], {"note": "real function executed on symbolic inputs"})
     P = report.pool()
     jobs = [(area_case, ("generic",)), (area_case, ("minus-one",)), (area_case, ("mixed",)), (interp_case, ()),
-            (resample_case, ((4,), -1, 2, 1, 1)), (resample_case, ((3,), 0, 3, 2, 1)), (resample_case, ((5,), -1, 1, 2, 1)), (resample_case, ((4,), -1, 4, 2, 1)),
+            (resample_case, ((4,), -1, 2, 1, 1)), (resample_case, ((3,), 0, 3, 2, 1)), (resample_case, ((5,), 0, 4, 3, 1)), (resample_case, ((4,), 0, 3, 2, 2)), (resample_case, ((5,), -1, 1, 2, 1)), (resample_case, ((4,), -1, 4, 2, 1)),
             (resample_case, ((3, 2), 0, 2, 1, 1)), (resample_case, ((2, 3), 1, 2, 3, 1)), (resample_case, ((3, 2, 2), 0, 2, 1, 1)), (resample_case, ((2, 3, 2), 1, 1, 2, 1)),
             (resample_case, ((2, 2, 3), -1, 3, 1, 1)), (resample_case, ((3, 2, 2), -3, 2, 1, 1)),
             (closest_case, ("_find_closest_times", 2, 1)), (closest_case, ("_find_closest_times", 3, 2)), (closest_case, ("_find_closest_times", 4, 1)),
